@@ -369,7 +369,7 @@ def describe(tier):
             "state: lru_cache on SVG._inherited_attrib, class attributes, the _SVG_ARG_FIXUPS defaultdict).  Order cases run on the symbolic templates (numbers universally quantified, abstract Skia); history cases use concrete numbers and real Skia.  Refutations are replayed on the real package "
             "across PYTHONHASHSEED values / processes."
         ),
-        "bounds": {"documents": DOCS, "orders": "one iteration event at a time (every other set in insertion order): all permutations of sets with <= 3 elements, 2n rotations/reversals otherwise; order fixed per set object until mutated; interactions between two permuted sets are not explored", "histories": "all 30 ordered pairs"},
+        "bounds": {"documents": DOCS, "orders": "one iteration event at a time (every other set in insertion order): all permutations of sets with <= 3 elements, 2n rotations/reversals up to 6 elements, identity/reversal/two rotations beyond; order fixed per set object until mutated; interactions between two permuted sets are not explored", "histories": "all 30 ordered pairs"},
         "outside": ["nondeterminism inside lxml / Skia", "OS-level process effects", "dict iteration (insertion ordered by language guarantee)"],
         "stubs": ["set/frozenset/set displays -> order-aware SxSet (sx/loader.py)"],
         "assumptions": ["dicts are insertion ordered", "sorted() of a set is order independent"],
